@@ -5,7 +5,7 @@ from functools import partial
 import numpy as onp
 
 from .. import values
-from ..case import Outcome, fail, ok, raised
+from ..case import Outcome, fail, from_autograd, ok, raised
 from ..derivcheck import bucket_of, key_of, primal
 from ..engine import Prop, Test
 from ..oracle import rdot
@@ -20,6 +20,7 @@ RULE = (
     "mode are a failure (in both: inconclusive). "
     "Compositions: generated array programs (vh/progs.py). Non-trivial = both modes returned non-zero results; distinct "
     "by (template, feature tuple, argsel, carrier, complex mask)."
+    " adj:kinks: points exactly ON a kink (clip bounds, ties under sort with every kind / maximum / minimum / max, exact zeros under abs / hypot / gates): the one-sided choices of the two modes agree as linear maps."
     " adj:containers: C12's nested container arguments and access programs - the tangent for a direction equals the pairing of the reverse-mode gradient with it."
 )
 
@@ -184,12 +185,105 @@ def _container_body(c):
     return ok(nontrivial=bool(opnames), key=json.dumps([struct, [[ops, leaf] for ops, leaf in uses]]), labels=["container"] + ["op=" + o for o in opnames], sample=sample)
 
 
+KINK_FAMILIES = ["clip_on_bound", "clip_one_sided", "sort_ties", "maximum_ties", "minimum_ties", "abs_zero", "max_reduce_ties", "where_gate", "relu_max0", "clip_of_clip", "hypot_origin", "norm_origin_row"]
+
+
+def _kinks_body(c):
+    fam, f, x, v, g, sample = kinks_setup(c)
+    return _kinks_check(c, fam, f, x, v, g, sample)
+
+
+def kinks_setup(c):
+    """Points ON a kink of a piecewise function (an entry exactly on a clip bound, tied entries under sort / maximum / minimum / max, an exact
+    zero under abs): each mode picks one of the one-sided derivatives there, and wherever both return finite values the two choices must
+    be the same linear map: <g, JVP(v)> = <VJP(g), v>."""
+    import autograd
+    import autograd.numpy as anp
+
+    from .. import values
+
+    fam = c.choice(KINK_FAMILIES)
+    n = c.int(3, 8)
+    vseed = c.seed()
+    (x, v, g, w), _ = values.generic(vseed, [(n,), (n,), (n,), (n,)], -1.5, 1.5)
+    kind = c.choice(["stable", "quicksort", "mergesort", "heapsort", None])
+    lo, hi = -0.5, 0.75
+    # plant the kink: some entries exactly on the special values
+    k1, k2 = c.int(0, n - 1), c.int(0, n - 1)
+    x = x.copy()
+    if fam in ("clip_on_bound", "clip_of_clip"):
+        x[k1], x[k2] = lo, hi
+    elif fam == "clip_one_sided":
+        x[k1] = 0.0
+    elif fam in ("sort_ties", "max_reduce_ties"):
+        idx = [c.int(0, n - 1) for _ in range(c.int(2, 4))]
+        x[idx] = x[idx[0]] if fam == "sort_ties" else float(onp.max(x)) + 0.25
+    elif fam in ("maximum_ties", "minimum_ties"):
+        w = w.copy()
+        w[k1], w[k2] = x[k1], x[k2]
+    elif fam in ("abs_zero", "where_gate", "relu_max0"):
+        x[k1] = 0.0
+        x[k2] = 0.0
+    elif fam == "hypot_origin":
+        w = w.copy()
+        x[k1], w[k1] = 0.0, 0.0
+    f = {
+        "clip_on_bound": lambda t: anp.clip(t, lo, hi) * w,
+        "clip_of_clip": lambda t: anp.clip(anp.clip(t, lo, hi) * 1.0, lo, hi) * w,
+        "clip_one_sided": lambda t: anp.clip(t, 0.0, None) * w,
+        "sort_ties": (lambda t: anp.sort(t, kind=kind) * w) if kind else (lambda t: anp.sort(t) * w),
+        "maximum_ties": lambda t: anp.maximum(t, w) * g,
+        "minimum_ties": lambda t: anp.minimum(w, t) * g,
+        "abs_zero": lambda t: anp.abs(t) * w,
+        "max_reduce_ties": lambda t: anp.max(t) * w,
+        "where_gate": lambda t: anp.where(t > 0, t, 0.0) * w,
+        "relu_max0": lambda t: anp.maximum(t, 0.0) * w,
+        "hypot_origin": lambda t: anp.hypot(t, w) * g,
+        "norm_origin_row": lambda t: anp.sqrt(t * t + w * w * (w > 0)) * g,
+    }[fam]
+    sample = {"family": fam, "n": n, "kind": kind if fam == "sort_ties" else None, "x": x.tolist(), "vseed": vseed}
+    case_features = dict(family=fam, kind=kind if fam == "sort_ties" else None)
+    c.features.update(case_features)
+    return fam, f, x, v, g, sample
+
+
+def _kinks_check(c, fam, f, x, v, g, sample):
+    import autograd
+
+    bucket = lambda k: f"C04|kinks|{fam}|{k}"
+    kind = sample["kind"]
+    n = sample["n"]
+    try:
+        with onp.errstate(all="ignore"):
+            tan = onp.asarray(autograd.make_jvp(f)(x)(v)[1])
+            cot = onp.asarray(autograd.make_vjp(f)(x)[0](g))
+            tan2 = onp.asarray(autograd.make_jvp(f)(x)(2.0 * v)[1])
+    except Exception as e:
+        if not from_autograd(e):
+            raise
+        return raised(e, "kinks", sample=sample)
+    fin_t, fin_c = bool(onp.all(onp.isfinite(tan))), bool(onp.all(onp.isfinite(cot)))
+    if fin_t != fin_c:
+        return fail("one_mode_nonfinite", f"on a kink of {fam}: {'forward' if fin_c else 'reverse'} mode returns non-finite entries where the other mode returns finite ones",
+                    bucket("nonfinite"), sample=sample)
+    if not fin_t:
+        return Outcome("inconclusive", kind="neither mode is defined (non-finite) at the kink", sample=sample)
+    a, b = float(onp.sum(g * tan)), float(onp.sum(cot * v))
+    scale = _nrm(g) * _nrm(tan) + _nrm(cot) * _nrm(v) + 1e-300
+    if abs(a - b) > 1e-10 * scale:
+        return fail("not_adjoint", f"on a kink of {fam}: <g, JVP(v)> = {a!r} but <VJP(g), v> = {b!r}", bucket("adjoint"), sample=sample)
+    if not onp.allclose(tan2, 2.0 * tan, rtol=1e-12, atol=1e-13):
+        return fail("not_linear", f"on a kink of {fam}: JVP(2v) != 2 JVP(v)", bucket("linear"), sample=sample)
+    return ok(nontrivial=True, key=json.dumps([fam, n, kind if fam == "sort_ties" else None, x.tolist()]), labels=["kinks", "family=" + fam], sample=sample)
+
+
 def tests():
     out = []
     for name, t in sorted(TEMPLATES.items()):
         out.append(Test("adj:" + name, partial(_body, t), quick=150 * t.weight, thorough=1000 * t.weight, shard_size=200))
     out.append(Test("adj:programs", _prog_body, quick=600, thorough=10000, shard_size=150))
     out.append(Test("adj:containers", _container_body, quick=2500, thorough=15000, shard_size=250))
+    out.append(Test("adj:kinks", _kinks_body, quick=1500, thorough=10000, shard_size=250))
     return out
 
 
